@@ -252,6 +252,21 @@ def run(tier, seed, out):
     rng = random.Random(seed)
     res = {'evaluations': 0, 'distinct': 0, 'violations': [], 'samples': [], 'sections': {}}
     t0 = time.time()
+
+    # watchdog: the whole script takes 1-3 s; an operation on an assembled stack that does not return (a mis-wired stack can make the
+    # downward path circular, and toLower's lock is not re-entrant) is a finding of this check, not a reason to hang the check
+    import signal
+
+    limit = int(os.environ.get('STACK_CHECK_WATCHDOG_S', '120'))
+
+    def no_return(signum, frame):
+        where = ''.join(traceback.format_stack(frame)[-6:])
+        res['violations'].append({'class': 'no-return', 'what': ['an operation on an assembled stack did not return within %d s' % limit, where[-1200:]]})
+        res['wall_s'] = round(time.time() - t0, 2)
+        json.dump(res, open(out, 'w'), indent=1, default=str)
+        os._exit(1)
+    signal.signal(signal.SIGALRM, no_return)
+    signal.alarm(limit)
     scan_links(res)
     post_construct(res)
     names = ['A', 'B', 'C', 'D', 'E', 'F', 'G', 'H', 'I', 'J', 'K', 'L', 'M', 'N', 'O', 'P']
